@@ -1,0 +1,26 @@
+//go:build verif
+
+package object
+
+import "sync/atomic"
+
+// verifEnabled turns on the yield points in the symbol table (build tag `verif`).
+const verifEnabled = true
+
+var verifPointFn atomic.Pointer[func(string)]
+
+// SetVerifPoint installs f (nil uninstalls) to be called at every yield point.
+// The points are places where no lock is held.
+func SetVerifPoint(f func(name string)) {
+	if f == nil {
+		verifPointFn.Store(nil)
+		return
+	}
+	verifPointFn.Store(&f)
+}
+
+func verifPoint(name string) {
+	if f := verifPointFn.Load(); f != nil {
+		(*f)(name)
+	}
+}
